@@ -363,6 +363,9 @@ class Interp:
                     return SymVal(abs(v.v), v.sym, v.log, "abs", v.group)
                 return v
             return abs(v)
+        if name == "operator bool" and e.get("kind") == "CXXMemberCallExpr":
+            mbase = db.member_base(e)
+            return bool(self._truth(self.ev(mbase), e))
         if name in ("max", "min") and len(args_nodes) == 2:
             a, b = self.ev(args_nodes[0]), self.ev(args_nodes[1])
             lt = self._cmp("<", a, b, e)
@@ -375,14 +378,7 @@ class Interp:
                 argv = [self.ev(a) for a in args_nodes]
             except Unsupported:
                 argv = None
-            base = None
-            if e.get("kind") == "CXXMemberCallExpr":
-                mb = db.member_base(e)
-                try:
-                    base = self.ev(mb) if mb is not None else None
-                except Unsupported:
-                    base = canon(mb) if mb is not None else None
-            r = self.call_hook(name, argv, e) if argv is not None else NotImplemented
+            r = self.call_hook(name, argv, e)
             if r is not NotImplemented:
                 return r
         f = db.definition(did) if did else None
